@@ -25,6 +25,7 @@ PAYLOADS = [0, 1, -9999, 1e30, float("nan")]
 INT_PAYLOADS = [0, 1, -9999, 2 ** 40]
 VAL_NF = [F(-1), F(1, 2), F(2), F(5), F(0), F(3, 2), F(-2), F(1), F(1, 4), F(2), F(-1), F(5)]
 VAL_INT = [F(-1), F(0), F(2), F(5), F(1), F(-2), F(2), F(0), F(5), F(1), F(-1), F(2)]
+VAL_UINT = [F(3), F(0), F(2), F(5), F(1), F(7), F(2), F(0), F(5), F(1), F(4), F(2)]
 VAL_FZ = [F(-1), F(-1, 4), F(1, 2), F(1), F(0), F(3, 4), F(-1, 2), F(1, 4), F(1), F(-1), F(1, 2), F(0)]
 
 
@@ -41,6 +42,8 @@ def cases(tier):
         dts0 = ("float",) if fz == "fz" else ("float", "int")
         for n in D.arities(cmd):
             dts = dts0 + (("float32",) if n <= 2 else ())  # single-precision data (readers and plug-ins may deliver it)
+            if fz != "fz" and n <= 2:
+                dts = dts + ("uint",)  # unsigned data: what the NetCDF reader delivers for DataType = "Positive Integer"
             shapes = [(3,)] + ([(2, 2)] if (n <= 2 or tier == "thorough") else []) + ([(1, 3, 1)] if tier == "thorough" else [])
             for shape in shapes:
                 for dt in dts:
@@ -154,7 +157,7 @@ def _run_readers(case):
 
 
 def _vals(cmd, dt, n, size):
-    base = VAL_FZ if SIG.input_fuzz(cmd) == "fz" else (VAL_INT if dt == "int" else VAL_NF)
+    base = VAL_FZ if SIG.input_fuzz(cmd) == "fz" else (VAL_INT if dt == "int" else VAL_UINT if dt == "uint" else VAL_NF)
     return [[base[(i * size + j) % len(base)] for j in range(size)] for i in range(n)]
 
 
@@ -172,7 +175,7 @@ def run(case):
     outcomes = {}
     evals = nontriv = 0
     sample = None
-    payloads = INT_PAYLOADS if dt == "int" else (PAYLOADS if dt == "float" else [0, 1, -9999, 1e30])
+    payloads = INT_PAYLOADS if dt == "int" else [0, 250, 999999] if dt == "uint" else (PAYLOADS if dt == "float" else [0, 1, -9999, 1e30])
     for lo in range(1 << lowbits):
         bits = lo | ((hi << 8) if hi >= 0 else 0)
         cols = [[None if bits >> (i * size + j) & 1 else vals[i][j] for j in range(size)] for i in range(n)]
@@ -180,17 +183,23 @@ def run(case):
         ref = REF.apply(cmd, cols, params)
         base_cells = None
         for pl in (payloads if anymiss else [0]):
-            forms = ("auto",) if anymiss else ("nomask", "false")
+            # inputs without missing cells also as plain numpy.ndarray objects (next to masked inputs where there are any)
+            forms = (("auto", "auto+ndarray") if any(all(x is not None for x in c) for c in cols) else ("auto",)) if anymiss else ("nomask", "false", "ndarray")
             for form in forms:
                 arrays = [D.mk_array(c, shape=shape, dtype=dt, maskform=form, payload=pl) for c in cols]
                 res = D.execute(cmd, arrays, params)
                 evals += 1
                 tag = {"cmd": cmd, "params": params, "inputs": [[str(x) for x in c] for c in cols], "shape": list(shape), "dtype": dt,
-                       "payload": repr(pl)}
+                       "payload": repr(pl), "complete_inputs_given_as": "numpy.ndarray" if "ndarray" in form else "MaskedArray"}
                 if anymiss:
                     nontriv += 1
                 sample = tag
                 if res[0] == "err":
+                    if "ndarray" in form:
+                        # a command that cannot take a plain ndarray at all fails loudly: no statement about missing cells is involved
+                        k = "%s:raised-on-plain-ndarray" % cmd
+                        outcomes[k] = outcomes.get(k, 0) + 1
+                        continue
                     if ref[0] in ("ok",):
                         viols.append(V("C03:%s:raised:%s" % (cmd, D.error_name(res[1])), "%s raised %r with missing placement %s payload %r" % (cmd, res[1], tag["inputs"], pl), **tag))
                     k = "%s:raised" % cmd
